@@ -403,7 +403,9 @@ var extSuffixes = []string{"foo", "bar", "nullable", "go-name", "order2", "é", 
 var mimeTypes = []string{"application/json", "text/plain", "application/xml", "*/*", "application/vnd.x+json; charset=utf-8"}
 var niceStrings = []string{"a", "text", "Some description.", "é", "日本", "with \"quotes\"", "back\\slash", "line\nbreak", "tab\t", "<b>&</b>", "l s", " ", "0", "null", "\x01"}
 var canonicalRefs = []string{"#/definitions/x", "#/definitions/a~1b", "other.json#/definitions/y", "http://host/a.json#/d", "sub/o.json", "#/parameters/p", "#/responses/r"}
-var oddRefs = []string{"", "#", "%zz", "http://[::1", "a b", "//", "HTTP://Host:80//a//b.json#/x", "#/a%2Fb", ":", "file:///a/../b.json#"}
+var oddRefs = []string{"", "#", "%zz", "http://[::1", "a b", "//", "HTTP://Host:80//a//b.json#/x", "#/a%2Fb", ":", "file:///a/../b.json#",
+	// characters that JSON has to escape, in the parts of a URL that net/url prints verbatim (query, opaque part)
+	`other.json?filter="a"#/definitions/x`, `models.json?rev=2","title":"injected`, `urn:schemas\thing`, `mailto:a"b@c`, `a.json?q=\u0041`}
 var jsonTypes = []string{"string", "number", "integer", "boolean", "array", "object", "null"}
 var statusCodes = []string{"200", "201", "204", "400", "404", "500", "100", "599"}
 var xorderValues = []string{"", "0", "1", "1", "1.5", `"1"`, `"x"`, "-1", "1099511627776", "true"}
@@ -620,6 +622,11 @@ func phase1(r *rng, emit func(cdoc)) {
 			// object-valued: on a responses object every member that is not a lower-case x- key is first read as a response
 			emit(cdoc{kind: kind, doc: withMember(base, "X-Rate-Limit", mustJV(`{"a":[1,{"b":null}],"description":"d"}`)), nf: true, phase: 1, tags: []string{"phase1", "single", "ext", "ext-uppercase", "ext-object"}})
 			emit(cdoc{kind: kind, doc: withMember(base, "x-rate-limit", mustJV(`{"a":[1,{"b":null}],"description":"d"}`)), nf: true, phase: 1, tags: []string{"phase1", "single", "ext", "ext-object"}})
+			// extension names that differ in letter case only are different members: none may be lost or merged by the encoder
+			cv := withMember(base, "x-rank", mustJV(`{"n":1}`))
+			cv.set("X-Rank", mustJV(`{"n":2}`))
+			cv.set("x-RANK", mustJV(`{"n":3}`))
+			emit(cdoc{kind: kind, doc: cv, nf: false, phase: 1, tags: []string{"phase1", "ext", "ext-case-variants"}})
 		}
 		for _, kw := range ki.kws { // a required string may be empty
 			if kw.ft.class == "str" && isRequired(ki, kw.name) {
